@@ -67,6 +67,7 @@ struct timer_rec {
 // ---------------------------------------------------------------- sockets
 struct sock_rec {
   int id = -1; bool open = false; bool connected = false; bool shut = false; int conn_epoch = -1;
+  error_code broken;            // set once an operation failed with a transport error: the connection is gone, later I/O fails too
   asio::any_completion_handler<void(error_code)> h_connect;
   asio::any_completion_handler<void(error_code, std::size_t)> h_read; char* rbuf = nullptr; std::size_t rcap = 0;
   asio::any_completion_handler<void(error_code, std::size_t)> h_write; std::string wdata; int writes = 0;
@@ -143,11 +144,12 @@ inline void complete_connect(sock_rec* s, error_code ec) {
 inline std::size_t complete_read(sock_rec* s, const char* data, std::size_t n, error_code ec) {
   if (n > s->rcap) n = s->rcap;
   if (n) std::memcpy(s->rbuf, data, n);
-  s->rbuf = nullptr;
+  s->rbuf = nullptr; if (ec) s->broken = ec;
   post_completion(std::move(s->h_read), ec, n);
   return n;
 }
 inline void complete_write(sock_rec* s, std::size_t n, error_code ec) {
+  if (ec) s->broken = ec;
   post_completion(std::move(s->h_write), ec, n);
 }
 inline resolver_rec* pending_resolve() { for (auto* r : world().resolvers) if (r->h) return r; return nullptr; }
